@@ -241,6 +241,7 @@ pub fn worker(ctx: &mut Ctx) {
         let mut rep = std::mem::take(&mut ctx.report);
         // the dictionary's content is what the mutable back-end holds (spellings that differ only
         // in case share one entry: that collapse is C06/C07's subject, not C15's)
+        let orig_words = words.clone();
         let words: Vec<Vec<char>> = {
             let mut m = MutableDictionary::new();
             m.extend_words(words.iter().map(|w| (w.clone(), WordMetadata::default())));
@@ -265,9 +266,14 @@ pub fn worker(ctx: &mut Ctx) {
                         }
                     }
                 }
-                // merged of two different parts behaves as the union, first child wins
-                if words.len() >= 2 {
-                    let (pa, pb) = words.split_at(1);
+                // merged of two different parts behaves as the union, first child wins; the parts are
+                // taken from the original word list, so they may hold case twins of each other
+                if orig_words.len() >= 2 {
+                    let (pa, pb) = orig_words.split_at(1);
+                    // within one part, twins would collapse: keep the first spelling of each folded word
+                    let mut seen: Vec<Vec<char>> = Vec::new();
+                    let pb: Vec<Vec<char>> = pb.iter().filter(|w| { let f = lower(&norm(w)); if seen.contains(&f) { false } else { seen.push(f); true } }).cloned().collect();
+                    let pb = &pb[..];
                     let mut a = MutableDictionary::new();
                     a.extend_words(pa.iter().map(|w| (w.clone(), WordMetadata::default())));
                     let mut bm = MutableDictionary::new();
